@@ -115,8 +115,13 @@ class Gen:
                     self.selects[sid] = listed
             self.assignments(r.randint(1, 2 * nt))
         if r.random() < self.pf.get('p_buf', 0.0):
-            for b in range(1, r.choice([1, 1, 2]) + 1):
-                conc = r.random() < 0.5
+            nb = r.choice([1, 1, 2]) if self.pf.get('p_buf', 0.0) < 1.0 else r.choice([1, 2, 2])
+            first_conc = None
+            for b in range(1, nb + 1):
+                # two buffers of one problem are more often of the same kind (what one buffer's encoding leaves behind must not
+                # reach the next one)
+                conc = (r.random() < 0.5) if first_conc is None or r.random() < 0.4 else first_conc
+                first_conc = conc if first_conc is None else first_conc
                 init = r.choice([None, 0, 5, 10, 10])
                 final = r.choice([None, None, None, None, None, 3, 8]) if init is not None else r.choice([0, 4, 10])
                 self.ops.append(('ONewBuffer', N(b), conc, optZ(init), optZ(final),
